@@ -2039,11 +2039,74 @@ bail:
     cleanup();
 }
 
+/* (21..) SOLT on 2x2 for every 8/10/12/14-term type in m and in a/b form:
+ * g_arg = type * 2 + ab.  Double reflects, through, solve, add_calibration,
+ * apply in the same form, save. */
+static int g_arg;
+static void script_solt(void)
+{
+    static const ets_type_t etype[6] = { ETS_T8, ETS_U8, ETS_TE10, ETS_UE10,
+	ETS_UE14, ETS_E12 };
+    static const vnacal_type_t ltype[6] = { VNACAL_T8, VNACAL_U8, VNACAL_TE10,
+	VNACAL_UE10, VNACAL_UE14, VNACAL_E12 };
+    static const struct {
+	const char *name;
+	int s11, s22;
+	double g1, g2;
+    } std[4] = {
+	{ "add_short_open", VNACAL_SHORT, VNACAL_OPEN, -1.0, 1.0 },
+	{ "add_open_short", VNACAL_OPEN, VNACAL_SHORT, 1.0, -1.0 },
+	{ "add_match_match", VNACAL_MATCH, VNACAL_MATCH, 0.0, 0.0 },
+	{ "add_short_short", VNACAL_SHORT, VNACAL_SHORT, -1.0, -1.0 },
+    };
+    const int ti = g_arg / 2, ab = g_arg % 2;
+    double complex sf[NF][MAXC];
+    const char *path;
+
+    CAL_BEGIN(etype[ti], ltype[ti], 30 + g_arg, 0.0);
+    for (int i = 0; i < 4; ++i) {
+	sim_measure_const(&sim, std[i].g1, 0.0, 0.0, std[i].g2, ab, &mb);
+	if (ab)
+	    STEP_RC(std[i].name, vnacal_new_add_double_reflect(vnp,
+			mb.a, mb.a_rows, mb.a_cols, mb.m, 2, 2,
+			std[i].s11, std[i].s22, 1, 2));
+	else
+	    STEP_RC(std[i].name, vnacal_new_add_double_reflect_m(vnp,
+			mb.m, 2, 2, std[i].s11, std[i].s22, 1, 2));
+    }
+    sim_measure_const(&sim, 0.0, 1.0, 1.0, 0.0, ab, &mb);
+    if (ab)
+	STEP_RC("add_through", vnacal_new_add_through(vnp, mb.a, mb.a_rows,
+		    mb.a_cols, mb.m, 2, 2, 1, 2));
+    else
+	STEP_RC("add_through", vnacal_new_add_through_m(vnp, mb.m, 2, 2,
+		    1, 2));
+    STEP_RC("solve", vnacal_new_solve(vnp));
+    STEP_IDX("add_calibration", W.ci[0], vnacal_add_calibration(vcp,
+		"cal_solt", vnp));
+    STEP_PTR("alloc_result", W.vd[0], vnadata_alloc(vt_errfn, NULL));
+    dut_s(sf);
+    sim_measure(&sim, sf, ab, &mb);
+    if (ab)
+	STEP_RC("apply", vnacal_apply(vcp, W.ci[0], g_fv, NF, mb.a, mb.a_rows,
+		    mb.a_cols, mb.m, 2, 2, W.vd[0]));
+    else
+	STEP_RC("apply", vnacal_apply_m(vcp, W.ci[0], g_fv, NF, mb.m, 2, 2,
+		    W.vd[0]));
+    path = scratch_file("solt.vnacal");
+    STEP_RC("save", vnacal_save(vcp, path));
+    STEP_VOID("free", (vnacal_free(vcp), W.vc[0] = NULL, W.vn = NULL));
+    STEP_VOID("free_result", (vnadata_free(W.vd[0]), W.vd[0] = NULL));
+bail:
+    cleanup();
+}
+
 /* ------------------------------------------------------------------- main */
 
 static const struct {
     const char *name;
     void (*fn)(void);
+    int arg;
 } scripts[] = {
     { "vnadata", script_vnadata },
     { "params", script_params },
@@ -2065,6 +2128,18 @@ static const struct {
     { "bulk", script_bulk },
     { "refuse", script_refuse },
     { "lmw", script_lmw },
+    { "solt-t8-m", script_solt, 0 },
+    { "solt-t8-ab", script_solt, 1 },
+    { "solt-u8-m", script_solt, 2 },
+    { "solt-u8-ab", script_solt, 3 },
+    { "solt-te10-m", script_solt, 4 },
+    { "solt-te10-ab", script_solt, 5 },
+    { "solt-ue10-m", script_solt, 6 },
+    { "solt-ue10-ab", script_solt, 7 },
+    { "solt-ue14-m", script_solt, 8 },
+    { "solt-ue14-ab", script_solt, 9 },
+    { "solt-e12-m", script_solt, 10 },
+    { "solt-e12-ab", script_solt, 11 },
 };
 #define NSCRIPTS ((int)(sizeof(scripts) / sizeof(scripts[0])))
 
@@ -2073,6 +2148,7 @@ static void run_script(int si)
     world_reset();
     g_step = 1;
     g_allow_fail = 0;
+    g_arg = scripts[si].arg;
     scripts[si].fn();
 }
 
